@@ -210,6 +210,17 @@ def gen_jobs(ctx):
         fs = freqs_for(case, rng, res)
         for w in rng.sample(fs, min(len(fs), 2 if quick else 4)):
             jobs.append(('random-resolution', case, w, res, rng.random() < 0.6))
+    # resolution 0 is a resolution too: a source is then active at exactly its own frequency and nowhere else (dc sources at w = 0 only);
+    # frequencies a dyadic 2^-12 / 2^-11 away (inside the DEFAULT window) must see a short / open circuit.  Periodic sources are left out
+    # of this stream (whether n*w0 computed in binary64 is "exactly a harmonic" is a rounding question the rational model does not ask).
+    for _ in range(25 if quick else 500):
+        case = circgen.random_circuit(rng)
+        if any(c['kind'].startswith('periodic') for c in case['components']):
+            continue
+        owns = sorted({float(c['params']['w']) for c in case['components'] if c['kind'] in ('ac_voltage_source', 'ac_current_source')} | {0.0})
+        for w0 in owns[:3]:
+            for w in (w0, w0 + 2.0 ** -12, max(w0 - 2.0 ** -11, 0.0) if w0 else 2.0 ** -14):
+                jobs.append(('zero-resolution', case, w, 0.0, rng.random() < 0.5))
     # sources far above 1 rad/s: the activity window is ABSOLUTE (|w - w_s| <= resolution), whatever the magnitude of w
     for _ in range(20 if quick else 400):
         case = circgen.random_circuit(rng)
